@@ -1,2 +1,5 @@
 import NetqasmVerif.Model.Basic
 import NetqasmVerif.Model.Codec
+import NetqasmVerif.Props.C15
+import NetqasmVerif.Props.C16
+import NetqasmVerif.Props.C17
